@@ -262,6 +262,7 @@ class Sweep:
 
         """
         items = self.items.copy()
+        sweeps = (self, *others)
         dims = self.dims.copy() if self.dims is not None else None
 
         for other in others:
@@ -278,9 +279,9 @@ class Sweep:
         return Sweep(
             items,
             dims=dims,
-            exclude=_combined_exclude(self.exclude, other.exclude),
-            constants=_combine_dicts(self.constants, other.constants),  # type: ignore[arg-type]
-            derivers=_combine_dicts(self.derivers, other.derivers),  # type: ignore[arg-type]
+            exclude=_combined_exclude(*(s.exclude for s in sweeps)),
+            constants=_combine_dicts(*(s.constants for s in sweeps)),  # type: ignore[arg-type]
+            derivers=_combine_dicts(*(s.derivers for s in sweeps)),  # type: ignore[arg-type]
         )
 
     def add_derivers(self, **derivers: Callable[[dict[str, Any]], Any]) -> Sweep:
